@@ -306,6 +306,15 @@ def uf_sym(eng, name, *args):
     return VOpaque(f(*[to_val(eng, a) for a in args]), tag="uf:" + name.s)
 
 
+@spec("ufi", None, "integer-valued uninterpreted function of integer arguments (ghost measure), named by the first argument")
+def ufi_sym(eng, name, *args):
+    f = z3.Function("ufi_" + name.s, *([IntS] * (len(args) + 1)))
+    ints = [as_int(eng, a) for a in args]
+    if any(t is None for t in ints):
+        raise EngineError("ufi: non-integer argument")
+    return VInt(f(*ints))
+
+
 @spec("holds_lock", None, "some lock handle of this actor is open on exactly this path (owns, not closed)")
 def holds_lock_sym(eng, path):
     from .models import to_val
@@ -369,3 +378,24 @@ def ofsval_sym(eng, b, lo, hi):
                 eng.assume(z3.Implies(z3.And(l2 < h, z3.Or(idx >= h, idx < l2)), ofsval_f(cur, l2, h) == ofsval_f(base, l2, h)))
             cur = base
     return VInt(t)
+
+
+@spec("uf_bytes", None, "an uninterpreted byte string determined by integer arguments (e.g. an object header)")
+def uf_bytes_sym(eng, name, *args):
+    ints = [as_int(eng, a) for a in args]
+    arr = z3.Function("ufb_arr_" + name.s, *([IntS] * len(ints) + [ArrS]))(*ints)
+    ln = z3.Function("ufb_len_" + name.s, *([IntS] * len(ints) + [IntS]))(*ints)
+    eng.assume(ln >= 0)
+    return seq_from_array(arr, ln, "bytes")
+
+
+@spec("elem", None, "ghost: item number j of an untracked iterable")
+def elem_sym(eng, lst, j):
+    from .models import elem_f, to_val
+    return VOpaque(elem_f(to_val(eng, lst), as_int(eng, j)), tag="elem")
+
+
+@spec("field", None, "ghost: component i of an untracked n-tuple")
+def field_sym(eng, item, i, n):
+    from .models import field_f, to_val
+    return VOpaque(field_f(const_of(as_int(eng, i)), const_of(as_int(eng, n)))(to_val(eng, item)), tag="field")
